@@ -12,6 +12,7 @@ import (
 	"sort"
 	"strings"
 	"testing"
+	"time"
 
 	"github.com/restic/restic/internal/verifshim/detrand"
 	"github.com/restic/restic/internal/verifshim/gatebe"
@@ -68,6 +69,10 @@ type Scenario struct {
 	NoFaultFailureIsViolation bool
 	// Actions returns extra scenario actions (cancellation, foreign processes …) enabled at this step.
 	Actions func(run *Run) []xplore.Action
+	// TimeAction adds "time passes although operations are pending" (a stalled operation) as a choice;
+	// TimeQuantum bounds one such step.
+	TimeAction  bool
+	TimeQuantum time.Duration
 	// CrashFilter, if set, decides whether a crash state is evaluated (e.g. only states that differ from base).
 	CrashFilter func(c Crash) bool
 }
@@ -213,7 +218,7 @@ func Explore(r *vh.Run, t *testing.T, sc Scenario, bound int, seen map[string]bo
 			r.Sample(map[string]any{"scenario": sc.Name, "schedule_len": len(x.Trace), "first_events": x.Labels[:n], "new_crash_states": len(run.Crashes), "example_crash": run.Crashes[len(run.Crashes)-1].Desc})
 		}
 	}
-	st := vx.Explore(r, t, sc.Name, xs, xplore.Options{Policy: xplore.FIFO, Bound: bound, MaxSteps: 1500}, check)
+	st := vx.Explore(r, t, sc.Name, xs, xplore.Options{Policy: xplore.FIFO, Bound: bound, MaxSteps: 1500, TimeAction: sc.TimeAction, TimeQuantum: sc.TimeQuantum}, check)
 	r.Note("%s: execs(this shard)=%d maxpending=%d", sc.Name, st.Execs, st.MaxPending)
 	return st
 }
